@@ -199,7 +199,10 @@ def unmodelledXsd : List String :=
 
 def termUnmodelled : Term → Bool
   | .lit lex dt =>
-    unmodelledXsd.any (fun n => dt = SparqlSpec.xsd n) || (dt = SparqlSpec.xsdInteger && lex.contains '_')
+    unmodelledXsd.any (fun n => dt = SparqlSpec.xsd n) || (dt = SparqlSpec.xsdInteger && lex.contains '_') ||
+      -- `"1"^^xsd:boolean`, `"0"^^xsd:boolean`: valid lexical forms that `str::parse::<bool>` rejects
+      -- (value.rs; reported, belongs to the literal/value mapping of C20)
+      (dt = SparqlSpec.xsdBoolean && lex ≠ "true".toList && lex ≠ "false".toList)
   | .triple s p o => termUnmodelled s || termUnmodelled p || termUnmodelled o
   | _ => false
 
@@ -295,6 +298,52 @@ def answer (D : List Quad) (q : Query) : String :=
   let dev := if agrees spec impl then "none" else attributeDev D q impl
   reply (impl.map (fun kv => kv.1 ++ "=" ++ kv.2) ++ spec.map (fun kv => "o." ++ kv.1 ++ "=" ++ kv.2) ++ [kv "k.dev" dev])
 
+/-! ### model-level search (used by check.py when a tie or a proof broke without a failing input):
+all datasets of ≤ 3 quads and BGPs of ≤ 2 triple patterns over a tiny vocabulary, bare and under
+`GRAPH ?x` / `GRAPH <g>`, on which the implementation model and the specification differ -/
+
+def renderTP (tp : TP) : String := tp.s.render ++ " " ++ tp.p.render ++ " " ++ tp.o.render
+
+def renderSmall (ps : List TP) (wrap : Nat) (xs : List Str) : String :=
+  let b := "bgp " ++ toString ps.length ++ String.join (ps.map (fun tp => " " ++ renderTP tp))
+  let inner := match wrap with
+    | 0 => b
+    | 1 => "graph " ++ (Term.var "x".toList).render ++ " " ++ b
+    | _ => "graph " ++ (Term.iri "g".toList).render ++ " " ++ b
+  "select nods project " ++ inner ++ " " ++ toString xs.length ++ String.join (xs.map (fun x => " " ++ hexOfChars x))
+
+def smallGP (ps : List TP) (wrap : Nat) (xs : List Str) : GP :=
+  let inner : GP := match wrap with
+    | 0 => .bgp ps
+    | 1 => .graph (.var "x".toList) (.bgp ps)
+    | _ => .graph (.iri "g".toList) (.bgp ps)
+  .project inner xs
+
+def sublistsUpTo {α : Type} : Nat → List α → List (List α)
+  | 0, _ => [[]]
+  | _, [] => [[]]
+  | n + 1, a :: l => (sublistsUpTo n l).map (a :: ·) ++ sublistsUpTo (n + 1) l
+
+def searchAll : List String :=
+  let a : Term := .iri "a".toList
+  let b : Term := .iri "b".toList
+  let p : Term := .iri "p".toList
+  let g : Term := .iri "g".toList
+  let vx : Term := .var "x".toList
+  let vy : Term := .var "y".toList
+  let u : Term := .bnode "u".toList
+  let triples := [a, b].flatMap fun s => [a, b].map fun o => (s, p, o)
+  let quads : List Quad := triples.flatMap fun t => [⟨t.1, t.2.1, t.2.2, none⟩, ⟨t.1, t.2.1, t.2.2, some g⟩]
+  let tps : List TP := [vx, vy, a, u].flatMap fun s => [p, vy].flatMap fun pp => [vx, vy, a, u].map fun o => ⟨s, pp, o⟩
+  let bgps : List (List TP) := [[]] ++ tps.map (fun t => [t]) ++ tps.flatMap (fun t => tps.map (fun t' => [t, t']))
+  let xs : List Str := ["x".toList, "y".toList]
+  (sublistsUpTo 3 quads).flatMap fun D =>
+    bgps.flatMap fun ps =>
+      [0, 1, 2].filterMap fun w =>
+        let q := Query.select none (smallGP ps w xs)
+        if agrees (specFields (SparqlSpec.evalQuery D) q) (implFields D q) then none
+        else some ("q " ++ String.join (D.map (fun qd => qd.render ++ " | ")) ++ "; " ++ renderSmall ps w xs)
+
 /-- the store keeps one copy of a quad (`Term::eq` on the four components) -/
 def quadEq (a b : Quad) : Bool :=
   Term.termEq a.s b.s && Term.termEq a.p b.p && Term.termEq a.o b.o && Sparql.graphNameEq a.g b.g
@@ -309,6 +358,7 @@ def handle (line : String) : String :=
       | none => "bad-op"
       | some q => answer (SparqlSpec.dedupBy quadEq D) q
   | "raw" :: _ => "skip=1"
+  | ["search"] => "\n".intercalate searchAll
   | _ => "bad-op"
 
 abbrev State := Unit
